@@ -53,6 +53,15 @@ CHECKS["C09"] = dict(
     engine="tlc+replay",
 )
 
+CHECKS["C10"] = dict(
+    category="model_checking",
+    text="Graph.tla states C10 as the relation CleanupOK(G, R) (removes only helpers, objects/typedefs untouched except dangling references, no removed element is still referenced from any of the 60 reference sites, resolved stays resolved, nothing invented) plus idempotence. TLC enumerates a module for every site whose target can be a helper x helper kind x {only reference, dangling, with unused sibling} x supported owner, SUB_GROUP/SUB_FUNCTION/REF_UNIT chains and cycles, and groups/functions with a single member of each object kind, and checks the fixpoint reference cleanup against the relation. Every case and seeded random modules run through the real cleanup() twice; the extracted graphs are judged by TLC, the real check() must not report new dangling references, and the model after the second run must equal the first.",
+    design_ref="DESIGN.md §4.4, §6 C10",
+    note=_MERGE_NOTE,
+    technique="TLA+ relation (Graph.tla CleanupOK) over TLC-generated per-site cases, executed on the real cleanup and validated by TLC (Trace_Graph)",
+    engine="tlc+replay",
+)
+
 PENDING = "check not built yet in this round; planned per DESIGN.md §6 (no claim made until the TLA+ module and its binding exist)"
 NOT_APPLICABLE = {}
 
